@@ -225,6 +225,6 @@ func init() {
 		Rule: "C01 histories; after most steps a random subset of the live intents (ruling, shadowed or mixed) is re-submitted verbatim in a drawn input form (typed/string/JSON/JSON_IETF of the same data). The direct device captures the proto view plus JSON, JSON_IETF and the 8 XML documents of the same tree: all must be empty in content, the response must be empty and both stores unchanged. Non-trivial = a re-submission that mixes ruling and shadowed leaves; distinct = signature incl. forms and shadowed/ruling mix.",
 		Real: realCore, Stub: stubCore,
 		RequiredProbes: []string{"resubmit-shadowed", "resubmit-ruling", "resubmit-mixed"},
-		QuickSeconds: 35, ThoroughSeconds: 600,
+		QuickSeconds:   35, ThoroughSeconds: 600,
 	})
 }
